@@ -201,6 +201,7 @@ def declEntries (v : Var) (a : AttrName) : List Entry :=
   | some (.arr rows) => (colMajor rows).map fun l => .const l.toPy.num
   | some (.expr e) => (List.range e.numel).map fun k => .ex (e.elem k)
   | some (.arrE rows) => (colMajor rows).map fun e => .ex (e.elem 0)
+  | some (.dmat rows) => (colMajor rows).map fun x => .const (.fin x)
   | some (.dm x) => List.replicate (if v.dims.isEmpty then 1 else v.numel) (.const (.fin x))
 
 /-- `python_type(v)` does not change the number `v` stands for: no truncation of a non-integral
